@@ -1,6 +1,6 @@
 (* C17 — Writer and Reader follow their lifecycle for every call sequence.
    Writer theorems (LifecycleProofs.v); the Reader lifecycle theorems are added from ReaderProofs. *)
-From LZ4V Require Import Base GenBlock GenStream GenLz4 XXH32 BlockFormat FrameSpec FrameImpl Writer Reader FrameTheoremsSpec Lifecycle LifecycleProofs.
+From LZ4V Require Import Base GenBlock GenStream GenLz4 XXH32 BlockFormat FrameSpec FrameImpl Writer Reader FrameTheoremsSpec Lifecycle LifecycleProofs ReaderProofs ReaderSpec2 ReaderProofs2.
 (* for EVERY sequence of calls (Apply, Write, ReadFrom, Flush, Close, Reset), misuse included, every
    call's result is the reference machine's (Lifecycle.v: four phases, no blocks, no buffers, no sink) *)
 Theorem C17_writer_results : writer_refines_stmt.   Proof. exact writer_refines. Qed.
@@ -24,3 +24,16 @@ Print Assumptions C17_writer_reset.
    written so far (appending the end mark gives a frame of the specification) *)
 Theorem C17_writer_flush : writer_flush_stmt.       Proof. exact writer_flush. Qed.
 Print Assumptions C17_writer_flush.
+(* ---- Reader ---- *)
+(* after the end of the stream Read keeps returning io.EOF and WriteTo (0, nil), without consuming
+   anything more of the source, whatever follows the frame *)
+Theorem C17_reader_ended : reader_ended_stmt.            Proof. exact reader_ended. Qed.
+Print Assumptions C17_reader_ended.
+Theorem C17_reader_ended_read : reader_ended_read_stmt.  Proof. exact reader_ended_read. Qed.
+Print Assumptions C17_reader_ended_read.
+(* Reset makes the Reader indistinguishable from a new one with the same concurrency setting *)
+Theorem C17_reader_reset : reader_reset_stmt.            Proof. exact reader_reset. Qed.
+Print Assumptions C17_reader_reset.
+(* no call hangs: totality of every Reader operation *)
+Theorem C17_reader_total : reader_total_stmt.            Proof. exact reader_total. Qed.
+Print Assumptions C17_reader_total.
